@@ -1,0 +1,30 @@
+//go:build verif
+
+package climate
+
+// Contracts for the verifier in /verif (comment-only file; no declarations).
+// C20 (partial): the transcendental functions are uninterpreted, so only the
+// claims that follow from signs, the bisection bracket and the data flow are
+// decided here.
+
+//@ func calcVaporPressure(temperature) returns (r)
+//@   inline
+//@   requires temperature > -273.16
+//@   ensures [C20.vapour-pressure-positive] r > 0
+
+//@ func calcWetBulb(tDryBulb, tDewPoint, hEnthalpy, pAtmosphere) returns (r)
+//@   ensures [C20.wet-bulb-bracket] min(tDewPoint, tDryBulb) <= r && r <= max(tDewPoint, tDryBulb)
+//@   ensures [C20.wet-bulb-ordered] implies(tDewPoint <= tDryBulb, tDewPoint <= r && r <= tDryBulb)
+//@   loop 0 invariant (dx >= 0 && tDewPoint <= rtb && rtb + dx <= tDryBulb) || (dx <= 0 && tDryBulb <= rtb + dx && rtb <= tDewPoint)
+
+//@ func climateVariables(dryBulb, humidity, elevation, vaporPressure, dewPoint, wetBulb, deltaT)
+//@   noalias
+//@   requires dryBulb.len == humidity.len && dryBulb.len == vaporPressure.len && dryBulb.len == dewPoint.len && dryBulb.len == wetBulb.len && dryBulb.len == deltaT.len
+//@   requires forall(k, 0, dryBulb.len, dryBulb.at(k) >= -40 && dryBulb.at(k) <= 55)
+//@   assigns vaporPressure.cells, dewPoint.cells, wetBulb.cells, deltaT.cells
+//@   loop 0 invariant 0 <= i && i <= nDays
+//@   loop 0 invariant implies(i < nDays, dryBulb.at(i) >= -40 && dryBulb.at(i) <= 55)
+//@   loop 0 step [C20.depression] deltaT.at(i) == dryBulb.at(i) - wetBulb.at(i)
+//@   loop 0 step [C20.vapour-pressure-out] vaporPressure.at(i) > 0 && vaporPressure.at(i) == calcVaporPressure(dryBulb.at(i))
+//@   loop 0 step [C20.dew-point-pointwise] dewPoint.at(i) == calcDewPoint(dryBulb.at(i), humidity.at(i))
+//@   loop 0 step [C20.wet-bulb-between] implies(true, min(dewPoint.at(i), dryBulb.at(i)) <= wetBulb.at(i) && wetBulb.at(i) <= max(dewPoint.at(i), dryBulb.at(i)))
